@@ -1112,6 +1112,11 @@ pub fn worker(w: &mut WorkerCtx) {
     trees.extend(link_fixtures());
     let calls = all_calls();
     let sb = Sandbox::new("c09");
+    if w.shard == 0 {
+        let found = crate::models::deep::copy_move("stdfs", &Stdfs::new(), &format!("{}/e", sb.root), &format!("{}/e-copy", sb.root), &format!("{}/e-moved", sb.root));
+        crate::models::deep::report_worker(w, "copy_move", found);
+        sb.reset();
+    }
     let world = DiskWorld { root: sb.root.clone(), fs: Stdfs::new() };
     // hang guard: a call that does not return is reported from the watchdog thread, which ends the worker
     let progress = Progress::new();
@@ -1232,6 +1237,8 @@ pub fn run(ctx: &Ctx) -> i32 {
     if let Some(p) = &ctx.replay {
         return replay(ctx, p);
     }
+    // a chain far deeper than the enumerated trees: copy and move_p reach the bottom
+    crate::models::deep::report_main("copy_move", crate::models::deep::copy_move("memfs", &Memfs::new(), "/e", "/e-copy", "/e-moved"));
     let mem_entries = ctx.tier.pick(4usize, 6usize);
     let std_entries = ctx.tier.pick(3usize, 6usize);
     let mut trees: Vec<Tree> = enum_trees(&space(mem_entries, LinkDomain::Any)).iter().map(decorate).collect();
